@@ -14,7 +14,7 @@ CLAIMED = {
          "library's own copies, and yields success or a negative code. PARTIAL: machine-level undefined behaviour below the model (misaligned "
          "typed loads, aliasing) is only observed by ASan/UBSan in the correspondence runs (exhaustive lengths 0..2, every truncation and "
          "length/count perturbation of structured frames, mutation)."
-         " Code level (tie #1 for control flow): c01_code_rsn_info_safe / c01_code_wpa_info_safe - the element decoders AS TRANSLATED from the C text of this run, with only the element readable, never get stuck (no load outside, no signed overflow) and every memcpy source lies inside the element. Also c01_code_parse_data(_refines_model) (the data parser on every frame object) and c01_code_get_wpa_data_safe (the declared Key Data Length is clamped to 1024 and to what the body carries).",
+         " Code level (tie #1 for control flow): c01_code_rsn_info_safe / c01_code_wpa_info_safe - the element decoders AS TRANSLATED from the C text of this run, with only the element readable, never get stuck (no load outside, no signed overflow) and every memcpy source lies inside the element. Also c01_code_parse_data(_refines_model) (the data parser on every frame object) and c01_code_get_wpa_data_safe (the declared Key Data Length is clamped to 1024 and to what the body carries). c01_code_rtinit_returns - ieee80211_radiotap_iterator_init as translated, the whole routine with its loop over the extended present words, in any memory holding the header: the run returns (no load outside the buffer, no overflow) the model's answer for EVERY buffer.",
          "Rocq safety corollaries of read-oracle refinement proofs; sanitizer-instrumented differential correspondence; theorems about the C bodies translated from the source on every run (Gen/Sites.v)"),
  "C02": ("Theorems c02_classify_plain / c02_classify_radiotap: for every byte string the classifier returns exactly the Spec's slices "
          "(radiotap length and FCS flag as decoded, frame control, header implied by type/subtype/order, body), c02_accept_iff, c02_layout "
@@ -72,7 +72,7 @@ CLAIMED = {
          "vendor, empty continuation words: the decoder returns exactly the fold of the field semantics over the structurally computed "
          "aligned offsets), c09_chain_extends_single, c09_chain_decidable. The executable chain Spec is compared with the library on "
          "generated chains."
-         " Code level: c09_code_rtap_switch_field / _refines_spec / _header_guards / _loop_exit - every turn of the translated field switch reads the little-endian values at the field's sub-offsets and refines the Spec's per-field decoder (the iterator routines themselves, which contain goto, stay tied by the correspondence). The iterator's two routines (goto, pointer increments: not executed) are tied per named site: c09_code_rtnext_sites_covered / c09_code_rtinit_sites_covered - all 60 + 26 conditions, assigned and returned values evaluate to the model's formulas; both switches' shapes.",
+         " Code level: c09_code_rtap_switch_field / _refines_spec / _header_guards / _loop_exit - every turn of the translated field switch reads the little-endian values at the field's sub-offsets and refines the Spec's per-field decoder (the iterator routines themselves, which contain goto, stay tied by the correspondence). The iterator's two routines (goto, pointer increments: not executed) are tied per named site: c09_code_rtnext_sites_covered / c09_code_rtinit_sites_covered - all 60 + 26 conditions, assigned and returned values evaluate to the model's formulas; both switches' shapes. c09_code_rtinit_refines_model - ieee80211_radiotap_iterator_init AS TRANSLATED is executable (pointer increments scaled by the pointee size, the while loop an SLoop) and, for every buffer with only the buffer readable, refuses exactly what Model/Radiotap.v rt_init refuses and otherwise leaves the model's iterator in the members (loop over the extended present words by induction); only iterator_next (goto) remains tied per site.",
          "Rocq refinement proof by induction over the field list; differential correspondence; theorems about the C bodies translated from the source on every run (Gen/Sites.v)"),
  "C10": ("Theorems c10_layout (for ALL 2^11 selections of carried fields and all values the generator emits exactly the rendered header), "
          "c10_valid_header (version 0, length field = bytes produced, present word, every field little-endian at its naturally aligned "
@@ -100,7 +100,7 @@ CLAIMED = {
          "frame value, output objects are built from zero records; c13_no_state_between_calls (no writable library state, from the current "
          "objects). PARTIAL: independence from optimisation level / hardening flags is observed, not proved - 27000 inputs are evaluated "
          "in three builds (-O1+sanitizers, shipping -O2 flags, -O0) with different heap fill, output pre-fill, trailing bytes and preceding "
-         "call, and must agree field by field with each other and the model. Code level: c13_code_exec_ext - a meta-theorem about the interpreter of the translated C bodies: a run that ended with only the buffer readable is the same run in EVERY memory holding the buffer (so every code-level theorem holds in any surroundings); five instantiations (tag iterator, CRC, classifier, EAPOL recognition).",
+         "call, and must agree field by field with each other and the model. Code level: c13_code_exec_ext - a meta-theorem about the interpreter of the translated C bodies: a run that ended with only the buffer readable is the same run in EVERY memory holding the buffer (so every code-level theorem holds in any surroundings); five instantiations (tag iterator, CRC, classifier, EAPOL recognition). c13_code_rtinit_any_surroundings - the radiotap iterator init as translated returns the model's answer in every memory that holds the header.",
          "Rocq non-interference corollaries; three-build / three-environment differential comparison; theorems about the C bodies translated from the source on every run (Gen/Sites.v)"),
  "C14": ("Theorems c14_tags_history, c14_generators, c14_action, c14_parse_pipeline: in allocation skeletons that perform exactly each routine's "
          "malloc/realloc/free calls (sizes and branches from the functional models), for EVERY edit history, EVERY byte string through "
